@@ -9,6 +9,7 @@ Line protocol of the C13 driver.
   lmp  <hex content> <K> <n c₁ … cₙ> × K                      polls of the lammpstrj reader model
   xspec <m len₁ … len_m> <K> <n c₁ … cₙ> × K                  `exactStages` on frame indices
   lspec <m len₁ … len_m> <K> <n c₁ … cₙ> × K                  `lmpStages` on frame indices
+  trrhdr <hex bytes>                                          `trrHeader` (read_trr_header at byte level)
   trr  <2m h₁ d₁ … h_m d_m> <n size₁ … sizeₙ>                 `trrRun` events (r:off:len:size, y:k, w)
 
 Answer: the K results joined by " # ".  One result = stages joined by " | "; one stage =
@@ -104,6 +105,15 @@ def handle (toks : List String) : String :=
         " # ".intercalate (seqs.map (fun cuts => showIdx (lmpStages lens (List.range lens.length) cuts 0 false)))
       | none => "bad-op"
     | _ => "bad-op"
+  | ["trrhdr", h] =>
+    match unhex h with
+    | none => "bad-op"
+    | some bs =>
+      match trrHeader (bs.map (·.toNat)) with
+      | .error e => "err:" ++ (match e with | .eof => "eof" | .struct => "struct" | .value => "value" | .zerodiv => "zerodiv")
+      | .ok (hd, rest) =>
+        s!"ok {if hd.little then "<" else ">"} {if hd.double then 1 else 0} {hd.hlen} {dataSize hd.ints} {rest.length} " ++
+          ",".intercalate (hd.ints.map toString)
   | "trr" :: rest =>
     match takeList parseNat? rest with
     | some (hd, rest) =>
